@@ -94,14 +94,42 @@ def rule_r2(ctx):
     ctx.check("R2", "replace_input_with drops the annotations of the replaced value", ok, rp, rp.node,
               "the replaced input's annotations are not dropped", how="call with the old input", nontrivial=False)
     # shape of the drop
-    keeps = [x for x in own_nodes(drop.node) if isinstance(x, ast.If) and "set(self._inputs) | set(self._outputs)" in norm(x.test)
-             and any(isinstance(s, ast.Return) for s in x.body)]
-    filt = [x for x in own_nodes(drop.node) if isinstance(x, ast.GeneratorExp) and "spec.value is not value" in norm(x)]
+    vp = drop.params[1] if len(drop.params) > 1 else "value"
+    keeps = [x for x in own_nodes(drop.node) if isinstance(x, ast.If) and any(isinstance(s, ast.Return) for s in x.body)
+             and any(isinstance(c, ast.Compare) and isinstance(c.ops[0], ast.In) and norm(c.left) == vp
+                     and "self._inputs" in norm(c.comparators[0]) and "self._outputs" in norm(c.comparators[0]) for c in ast.walk(x.test))]
+
+    def is_identity_filter(c):
+        return isinstance(c, ast.Compare) and len(c.ops) == 1 and isinstance(c.ops[0], (ast.IsNot, ast.Is)) \
+            and {norm(c.left), norm(c.comparators[0])} >= {vp} and any(isinstance(o, ast.Attribute) and o.attr == "value" for o in (c.left, c.comparators[0]))
+
+    filt = [x for x in own_nodes(drop.node) if is_identity_filter(x)]
+    eq_filt = [x for x in own_nodes(drop.node) if isinstance(x, ast.Compare) and isinstance(x.ops[0], (ast.Eq, ast.NotEq))
+               and vp in (norm(x.left), norm(x.comparators[0]))]
     store = [w for w in field_writes(drop) if w.field == "device_configurations"]
-    ok = len(keeps) == 1 and len(filt) == 1 and len(store) == 1
+    ok = len(keeps) == 1 and len(filt) >= 1 and not eq_filt and len(store) == 1
     ctx.check("R2", "_drop_sharding_for_value filters by identity and keeps still-attached values", ok, drop, drop.node,
               "the drop compares by something other than identity, or removes specs of a value that is still an input/output",
-              how="early return when the value is still attached; `spec.value is not value` filter; single store")
+              how="early return when the value is still attached; `spec.value is (not) value` filter; single store")
+    # the drop visits every configuration of the node: the loop over the configurations that applies the filter is
+    # left only by exhaustion
+    conf_names = {"self.device_configurations"}
+    for x in own_nodes(drop.node):
+        if isinstance(x, ast.Assign) and isinstance(x.targets[0], ast.Name) and "self.device_configurations" in norm(x.value):
+            conf_names.add(x.targets[0].id)
+    loops = []
+    for x in own_nodes(drop.node):
+        if isinstance(x, ast.For) and any(nm in norm(x.iter) for nm in conf_names) and any(is_identity_filter(y) for y in ast.walk(x)):
+            loops.append(x)
+    comps = [x for x in own_nodes(drop.node) if isinstance(x, (ast.ListComp, ast.GeneratorExp)) and any(nm in norm(x.generators[0].iter) for nm in conf_names)
+             and any(is_identity_filter(y) for y in ast.walk(x))]
+    early = [y for lp in loops for st in lp.body for y in ast.walk(st) if isinstance(y, (ast.Break, ast.Return))]
+    ok = bool(loops or comps) and not early
+    ctx.check("R2", "_drop_sharding_for_value filters every configuration of the node", ok, drop, early[0] if early else drop.node,
+              "the loop over the node's device configurations stops at the first configuration that held a spec for the value "
+              "(break/return inside the loop): specs for the same value under later configurations stay, pointing at a value that "
+              "is no longer an input or output of the node",
+              how="loop over device_configurations containing the identity filter has no break/return")
 
 
 def rule_r3(ctx):
